@@ -34,6 +34,17 @@ class Sized(AutoParameterObject):
         return ['rate', 'extra']
 
 
+class Loc(AutoParameterObject):
+    """keeps the raw constructor argument in `_root` and exposes a processed view as `root`"""
+
+    def __init__(self, root):
+        self._root = root
+
+    @property
+    def root(self):
+        return ('processed', self._root)
+
+
 class Marker(IgnoreForPersistence):
     pass
 
